@@ -27,9 +27,9 @@
      Loop = "v0"                             : NoLoss violated (the defect 4a07be4 repaired: echo + late reply in one read)
      DataLines = TRUE                        : OwnReply violated (known finding C02:driver:1.1:data-line-starts-with-##) *)
 EXTENDS Naturals, Sequences, FiniteSets, TLC
-CONSTANTS Loop, DataLines, Echo, N, Policies, PromptEcho, Notifs, Pre, SplitEcho, IdFrom
-VARIABLES stream, b, store, next, call, pol, got, owed, asked, nn, pendEcho
-vars == <<stream, b, store, next, call, pol, got, owed, asked, nn, pendEcho>>
+CONSTANTS Loop, DataLines, Echo, N, Policies, PromptEcho, Notifs, Pre, SplitEcho, IdFrom, Errs, ErrLoop
+VARIABLES stream, b, store, next, call, pol, got, owed, asked, nn, pendEcho, errSt
+vars == <<stream, b, store, next, call, pol, got, owed, asked, nn, pendEcho, errSt>>
 
 \* Pre: the wire form of a message is modelled with its framing prefix as a token of its own (finer cuts, larger state space)
 \* the body of every other reply mentions a subscription ("sbody": the reply to establish-subscription, subscription state read
@@ -43,6 +43,7 @@ E(i) == IF SplitEcho THEN << <<"rpch", i>>, <<"rpc", i>>, <<"eend", i>> >> ELSE 
 NM(k) == << <<"nhdr", 20 + k>>, <<"nbody", 20 + k>>, <<"nend", 20 + k>> >>
 None == <<>>
 TimedOut == << <<"timeout", 0>> >>
+Errored == << <<"error", 0>> >>
 
 Looks(tok) == tok[1] \in {"end", "eend", "dl", "nend"}
 HasDelim(s) == \E k \in 1..Len(s) : Looks(s[k])
@@ -78,19 +79,19 @@ IterateV(ver, nb, st) ==
 Iterate(nb, st) == IterateV(Loop, nb, st)
 
 Init == /\ stream = <<>> /\ b = <<>> /\ store = [i \in 0..N |-> <<>>] /\ next = 1 /\ call = 0 /\ nn = 0 /\ pendEcho = <<>>
-        /\ pol \in [1..N -> Policies] /\ got = [i \in 1..N |-> None] /\ owed = {} /\ asked = {}
+        /\ pol \in [1..N -> Policies] /\ got = [i \in 1..N |-> None] /\ owed = {} /\ asked = {} /\ errSt = "none"
 
 \* the caller: build request i, write it, then poll the store for i
 Send == /\ call = 0 /\ next <= N /\ pendEcho = <<>>
         /\ call' = next /\ next' = next + 1 /\ asked' = asked \cup {next}
         /\ IF Echo /\ SplitEcho THEN stream' = stream \o << E(next)[1] >> /\ pendEcho' = Tail(E(next))
            ELSE stream' = (IF Echo THEN stream \o E(next) ELSE stream) /\ pendEcho' = <<>>
-        /\ UNCHANGED <<b, store, pol, got, owed, nn>>
+        /\ UNCHANGED <<b, store, pol, got, owed, nn, errSt>>
 EchoRest == /\ pendEcho # <<>> /\ stream' = stream \o pendEcho /\ pendEcho' = <<>>
-            /\ UNCHANGED <<b, store, next, call, pol, got, owed, asked, nn>>
+            /\ UNCHANGED <<b, store, next, call, pol, got, owed, asked, nn, errSt>>
 Fetch == /\ call # 0 /\ store[call] # <<>>
          /\ got' = [got EXCEPT ![call] = store[call]] /\ store' = [store EXCEPT ![call] = <<>>] /\ call' = 0
-         /\ UNCHANGED <<stream, b, next, pol, owed, asked, nn, pendEcho>>
+         /\ UNCHANGED <<stream, b, next, pol, owed, asked, nn, pendEcho, errSt>>
 \* PromptEcho: the echo of a request reaches the client before that call's timer expires (what a pty does unless the
 \* network stalls for longer than the operation timeout)
 EchoRead(i) == \A k \in 1..Len(stream) : stream[k] \notin {<<"rpc", i>>, <<"eend", i>>}
@@ -98,29 +99,38 @@ Timeout == /\ call # 0 /\ pol[call] # "now" /\ store[call] = <<>> /\ (PromptEcho
            \* time-scale separation: a timeout is hundreds of loop iterations long, so the loop has examined all it has
            /\ Iterate(b, store) = <<b, store>>
            /\ got' = [got EXCEPT ![call] = TimedOut] /\ call' = 0
-           /\ UNCHANGED <<stream, b, store, next, pol, owed, asked, nn, pendEcho>>
+           /\ UNCHANGED <<stream, b, store, next, pol, owed, asked, nn, pendEcho, errSt>>
 \* the server: reply to a request it has received, now or only after the caller gave up
 Reply(i) == /\ i \in asked /\ i \notin owed /\ pol[i] # "never" /\ (i = call => pendEcho = <<>>)
             /\ (pol[i] = "late" => got[i] = TimedOut)
             /\ owed' = owed \cup {i} /\ stream' = stream \o M(i)
-            /\ UNCHANGED <<b, store, next, call, pol, got, asked, nn, pendEcho>>
+            /\ UNCHANGED <<b, store, next, call, pol, got, asked, nn, pendEcho, errSt>>
 \* the server: an asynchronous notification of the subscription, at any time
 Notify == /\ nn < Notifs /\ nn' = nn + 1 /\ stream' = stream \o NM(nn + 1)
-          /\ UNCHANGED <<b, store, next, call, pol, got, owed, asked, pendEcho>>
+          /\ UNCHANGED <<b, store, next, call, pol, got, owed, asked, pendEcho, errSt>>
 \* the read loop
-ReadN(n) == /\ n \in 0..Len(stream)
+\* a transient transport error (one read fails, the connection stays usable): the channel hands it to the NETCONF loop, which
+\* parks until a call takes it - the call that is waiting, or the next one once it has written its request - and then goes on
+\* reading (ErrLoop = "continue", the code) or leaves (ErrLoop = "exit": every later reply is lost)
+ReadErr == /\ Errs > 0 /\ errSt = "none" /\ errSt' = "pending"
+           /\ UNCHANGED <<stream, b, store, next, call, pol, got, owed, asked, nn, pendEcho>>
+TakeErr == /\ errSt = "pending" /\ call # 0 /\ pendEcho = <<>>
+           /\ got' = [got EXCEPT ![call] = Errored] /\ call' = 0 /\ errSt' = "spent"
+           /\ UNCHANGED <<stream, b, store, next, pol, owed, asked, nn, pendEcho>>
+LoopReads == errSt # "pending" /\ (ErrLoop = "exit" => errSt # "spent")
+ReadN(n) == /\ n \in 0..Len(stream) /\ LoopReads
             /\ OkRead(SubSeq(stream, 1, n))
             /\ LET r == Iterate(b \o SubSeq(stream, 1, n), store) IN
                /\ b' = r[1] /\ store' = r[2] /\ (n = 0 => r # <<b, store>>)
             /\ stream' = SubSeq(stream, n + 1, Len(stream))
-            /\ UNCHANGED <<next, call, pol, got, owed, asked, nn, pendEcho>>
+            /\ UNCHANGED <<next, call, pol, got, owed, asked, nn, pendEcho, errSt>>
 Read == \E n \in 0..Len(stream) : ReadN(n)
-Next == Send \/ EchoRest \/ Fetch \/ Timeout \/ Read \/ Notify \/ \E i \in 1..N : Reply(i)
+Next == Send \/ EchoRest \/ Fetch \/ Timeout \/ Read \/ Notify \/ ReadErr \/ TakeErr \/ \E i \in 1..N : Reply(i)
 Spec == Init /\ [][Next]_vars /\ WF_vars(Next)
 
 TypeOK == call \in 0..N /\ next \in 1..(N+1)
 \* a call never returns anything but the whole reply that carries its own id
-OwnReply == \A i \in 1..N : got[i] \notin {None, TimedOut} => got[i] = M(i)
+OwnReply == \A i \in 1..N : got[i] \notin {None, TimedOut, Errored} => got[i] = M(i)
 \* a reply the server sent in full to a caller that is still waiting is delivered: no state in which everything has
 \* been read and examined, the reply was sent, and the caller can neither fetch nor (it was promised a reply) time out
 Settled == stream = <<>> /\ pendEcho = <<>> /\ Iterate(b, store) = <<b, store>>
